@@ -8,6 +8,7 @@ ops
   ['state', kind, handle, spec, iface]          kind in metric|alert|component|operational|rt ; iface classic|entity
   ['ctx_new', descr_handle, state_handle, spec, assoc, iface]
   ['ctx_update', state_handle, spec, assoc|None, iface]
+  ['ctx_delete', state_handle]                  (entity interface: the state is taken out of the entity and written)
   ['set_location', {fac, poc, bed, bldng, flr, rm}]
   ['descr_update', handle, spec, iface]
   ['descr_create', pool_index, iface]
@@ -150,6 +151,7 @@ def st_op(inv: Inventory, kinds=None, descriptor_ops=True, context_ops=True, mul
         classes = sorted({c for _, c in inv.context_descriptors})
         opts.append(st.tuples(st.just('ctx_update'), ctx_handles,
                               st.sampled_from(classes).flatmap(_state_spec), st.one_of(st.none(), assoc), IFACE).map(list))
+        opts.append(st.tuples(st.just('ctx_delete'), ctx_handles).map(list))
         one = st.tuples(ctx_handles, st.sampled_from(classes).flatmap(_state_spec), st.one_of(st.none(), assoc)).map(list)
         opts.append(st.tuples(st.just('ctx_multi'), st.lists(one, min_size=2, max_size=3)).map(list))
         if inv.location_descriptors:
@@ -272,6 +274,22 @@ def st_block(inv: Inventory, **kw):
                                   (['state', _kind_of_cls(hc[1]), hc[0], t[1], 'classic'] if t[4]
                                    else ['write_held', t[0], t[1]]),
                                   ['write_held', t[0], t[2]], ['write_held', t[0], t[3]]])))
+        # one object through both interfaces: entity write first, then descriptor + state through the classic getters
+        by_handle = {h: c for h, c, p in inv.descriptors}
+        mixed = [(h, sc) for kind in ('metric', 'alert', 'component') for h, sc in inv.states[kind][:8] if h in by_handle]
+        if mixed and kw.get('multi', True):
+            blocks.append(st.sampled_from(mixed).flatmap(lambda hs: st.tuples(
+                T.instance_spec(T.all_classes()[by_handle[hs[0]]]), T.instance_spec(T.all_classes()[by_handle[hs[0]]]),
+                _state_spec(hs[1]), st.lists(op, max_size=2), st.sampled_from(['entity', 'entity', 'classic'])).map(
+                lambda t, hs=hs: [['descr_update', hs[0], t[0], t[4]], *t[3],
+                                  ['multi', [['descr_update', hs[0], t[1], 'classic'], ['tx_state', hs[0], t[2]]]]])))
+        # a context descriptor that owns several context states is updated
+        if kw.get('context_ops', True) and inv.context_descriptors:
+            blocks.append(st.sampled_from(inv.context_descriptors).flatmap(lambda hc: st.tuples(
+                _state_spec(hc[1]), _state_spec(hc[1]), st.sampled_from(['Assoc', 'Dis', 'No']), IFACE, IFACE,
+                T.instance_spec(T.all_classes()[by_handle[hc[0]]]), IFACE, st.lists(op, max_size=2)).map(
+                lambda t, hc=hc: [['ctx_new', hc[0], 'vf_ctx_0', t[0], 'Dis', t[3]], ['ctx_new', hc[0], 'vf_ctx_1', t[1], t[2], t[4]],
+                                  *t[7], ['descr_update', hc[0], t[5], t[6]]])))
         rel = st_related_multi(inv)
         if rel is not None and kw.get('multi', True):
             blocks.append(rel.map(lambda o: [o]))
@@ -450,6 +468,18 @@ class Interp:
                 if assoc:
                     self._set_assoc(mgr, st_, assoc)
                 mgr.write_entity(ent, [shandle])
+        info['touched'].add(shandle)
+
+    def _op_ctx_delete(self, op, info):
+        _, shandle = op
+        state = self.mdib.context_states.handle.get_one(shandle, allow_none=True)
+        if state is None:
+            raise Skip
+        with self._tx('context') as mgr:
+            ent = self.mdib.entities.by_handle(state.DescriptorHandle)
+            del ent.states[shandle]
+            self._body_point()
+            mgr.write_entity(ent, [shandle])
         info['touched'].add(shandle)
 
     def _op_abort(self, op, info):
